@@ -39,6 +39,7 @@ import (
 	"github.com/functionx/fx-core/v8/contract"
 	"github.com/functionx/fx-core/v8/testutil/helpers"
 	fxtypes "github.com/functionx/fx-core/v8/types"
+	crosschaintypes "github.com/functionx/fx-core/v8/x/crosschain/types"
 	erc20types "github.com/functionx/fx-core/v8/x/erc20/types"
 
 	bx "fxverif/harness/bridgex"
@@ -211,12 +212,64 @@ type acct struct {
 	a sdk.AccAddress
 }
 
+// parties a message may name as receiver (same numbering as Model/C08U.lean partyAddr): 0-2 users, 3 the erc20 module
+// account, 4 the eth crosschain module account, 5 the fee collector, 6 the gov module account (the only module account
+// that is not on the bank's blocked list), 7 the crosschain precompile address, 8 the zero address, 1000+ct the account of
+// contract ct (1000 = the WFX contract).  The same 20 bytes serve as bech32 account and as EVM address.
+const (
+	pErc20Mod = 3
+	pEthMod   = 4
+	pFeeColl  = 5
+	pGov      = 6
+	pPrecomp  = 7
+	pZero     = 8
+	pContract = 1000
+)
+
+func (r *run) party(p int) []byte {
+	switch {
+	case p < 3:
+		return r.users[p].AccAddress().Bytes()
+	case p == pErc20Mod:
+		return bx.ModuleAddr(erc20types.ModuleName).Bytes()
+	case p == pEthMod:
+		return bx.ModuleAddr("eth").Bytes()
+	case p == pFeeColl:
+		return bx.ModuleAddr(authtypes.FeeCollectorName).Bytes()
+	case p == pGov:
+		return bx.ModuleAddr(govtypes.ModuleName).Bytes()
+	case p == pPrecomp:
+		return crosschaintypes.GetAddress().Bytes()
+	case p == pZero:
+		return make([]byte, 20)
+	case p >= pContract:
+		return r.contract[p-pContract].Bytes()
+	}
+	panic("party")
+}
+
+func (r *run) partyName(p int) string {
+	switch {
+	case p < 3:
+		return fmt.Sprintf("u%d", p)
+	case p == pContract:
+		return "w"
+	case p >= pContract:
+		return "" // not printed
+	}
+	return map[int]string{pErc20Mod: "e", pEthMod: "m", pFeeColl: "f", pGov: "g", pPrecomp: "p", pZero: "z"}[p]
+}
+
 func (r *run) accts() []acct {
 	var l []acct
 	for i, u := range r.users {
 		l = append(l, acct{fmt.Sprintf("u%d", i), u.AccAddress()})
 	}
-	return append(l, acct{"e", bx.ModuleAddr(erc20types.ModuleName)}, acct{"w", sdk.AccAddress(r.wfx().Bytes())})
+	l = append(l, acct{"e", bx.ModuleAddr(erc20types.ModuleName)}, acct{"w", sdk.AccAddress(r.wfx().Bytes())})
+	for _, p := range []int{pEthMod, pFeeColl, pGov, pPrecomp, pZero} {
+		l = append(l, acct{r.partyName(p), sdk.AccAddress(r.party(p))})
+	}
+	return l
 }
 
 // snapshot: every tracked (account, asset) balance and every supply, keyed as the observation prints them
@@ -232,6 +285,9 @@ func (r *run) snapshot() (map[string]*big.Int, []string) {
 	cts := r.ctIDs()
 	for _, a := range r.accts() {
 		for _, d := range coinIDs {
+			if d == 0 && len(a.n) == 1 && a.n != "e" && a.n != "w" {
+				continue // module accounts hold native coin for their own purposes
+			}
 			put(fmt.Sprintf("%s.d%d", a.n, d), r.coinBal(a.a, d))
 		}
 		for _, ct := range cts {
@@ -430,9 +486,12 @@ func (r *run) books(op string, report bool, aliasShift map[string]*big.Int) {
 		}
 		ts := r.totalSupply(t)
 		sum := new(big.Int)
-		holders := []common.Address{bx.Erc20ModuleAddr(), r.owner.Address(), mixerAddr, sinkAddr}
-		for _, u := range r.users {
-			holders = append(holders, u.Address())
+		holders := []common.Address{r.owner.Address(), mixerAddr, sinkAddr}
+		for p := 0; p <= pZero; p++ {
+			holders = append(holders, common.BytesToAddress(r.party(p)))
+		}
+		for _, ct := range r.ctIDs() {
+			holders = append(holders, r.contract[ct])
 		}
 		for _, h := range holders {
 			sum.Add(sum, r.balOf(t, h))
@@ -449,8 +508,20 @@ func (r *run) books(op string, report bool, aliasShift map[string]*big.Int) {
 			if p.Denom == fxtypes.DefaultDenom {
 				escrow = r.w.S.App.BankKeeper.GetBalance(ctx, sdk.AccAddress(t.Bytes()), p.Denom).Amount.BigInt()
 			}
-			if d := new(big.Int).Sub(escrow, ts).String(); r.changed("mod:"+p.Denom+t.Hex(), d) && report {
-				r.out.Violate(fmt.Sprintf("I_module: escrowed coins %s != ERC-20 totalSupply %s after %s", escrow, ts, op))
+			modDiff := new(big.Int).Sub(escrow, ts)
+			if sh, ok := aliasShift["mod:"+p.Denom]; ok {
+				// a donation: coins released by an ERC-20 -> coin conversion straight to the pair's own escrow account
+				old, _ := new(big.Int).SetString(r.lastOf("mod:"+p.Denom+t.Hex()), 10)
+				if new(big.Int).Add(old, sh).Cmp(modDiff) == 0 {
+					r.last["mod:"+p.Denom+t.Hex()] = modDiff.String()
+					r.out.Count("books:donation-to-the-escrow-account(escrow>supply)")
+					modDiff = nil
+				}
+			}
+			if modDiff != nil {
+				if d := modDiff.String(); r.changed("mod:"+p.Denom+t.Hex(), d) && report {
+					r.out.Violate(fmt.Sprintf("I_module: escrowed coins %s != ERC-20 totalSupply %s after %s", escrow, ts, op))
+				}
 			}
 			// the denominations of a module-owned coin: every alias coin the module escrows is matched by minted base
 			// coins, i.e. (supply of the base coin − Σ alias coins held by the module) is moved by no message
@@ -572,8 +643,8 @@ func userDeltas(pre, post map[string]*big.Int) map[string]string {
 		keys[k] = true
 	}
 	for k := range keys {
-		if !strings.HasPrefix(k, "u") {
-			continue
+		if strings.HasPrefix(k, "e.") || strings.HasPrefix(k, "w.") || strings.HasPrefix(k, "s.") {
+			continue // the module account, the WFX contract and the supplies are the subject of the book monitors
 		}
 		a, b := pre[k], post[k]
 		if a == nil {
@@ -834,12 +905,26 @@ func (r *run) disabledFor(token string) bool {
 func (r *run) ccoin(d, u, rc, n int) {
 	pairs := r.pairList()
 	off := r.disabledFor(denomName(d))
+	recv := common.BytesToAddress(r.party(rc))
+	blocked := r.w.S.App.BankKeeper.BlockedAddr(r.party(rc))
+	// what the receiver holds of the ERC-20 of the pair registered for the denomination (directly from the contract)
+	recvBal := func() *big.Int {
+		if p, ok := r.w.S.App.Erc20Keeper.GetTokenPair(r.ctx(), denomName(d)); ok {
+			return r.balOf(p.GetERC20Contract(), recv)
+		}
+		return big.NewInt(0)
+	}
+	before := recvBal()
+	r.out.Count("ccoin:receiver:" + r.partyClass(rc))
 	r.op(fmt.Sprintf("ccoin %d %d %d %d", d, u, rc, n), func() error {
-		return r.msg(&erc20types.MsgConvertCoin{Coin: sdk.NewCoin(denomName(d), si(n)), Receiver: r.users[rc].Address().Hex(), Sender: r.users[u].AccAddress().String()})
+		return r.msg(&erc20types.MsgConvertCoin{Coin: sdk.NewCoin(denomName(d), si(n)), Receiver: recv.Hex(), Sender: r.users[u].AccAddress().String()})
 	}, opts{check: func(res string, pre, post map[string]*big.Int, preIdx, postIdx string) {
 		got := userDeltas(pre, post)
 		if res == "ok" && off {
 			r.out.Violate("toggle: MsgConvertCoin succeeded although conversion is switched off (module parameter or pair flag)")
+		}
+		if res == "ok" && blocked {
+			r.out.Violate(fmt.Sprintf("blocked receiver: MsgConvertCoin to a blocked address (%s) was accepted", r.partyClass(rc)))
 		}
 		if res != "ok" || preIdx != postIdx {
 			if len(got) != 0 || (res != "ok" && preIdx != postIdx) {
@@ -847,13 +932,34 @@ func (r *run) ccoin(d, u, rc, n int) {
 			}
 			return
 		}
+		if gain := new(big.Int).Sub(recvBal(), before); gain.Cmp(big.NewInt(int64(n))) != 0 {
+			r.out.Violate(fmt.Sprintf("convert_exact: MsgConvertCoin of %d to receiver class %s: the sender lost the coins but the receiver's ERC-20 balance grew by %s", n, r.partyClass(rc), gain))
+		}
 		for _, p := range pairs {
-			if p.d == d && sameDeltas(got, want(fmt.Sprintf("u%d.d%d", u, p.d), -n, fmt.Sprintf("u%d.c%d", rc, p.ct), n)) {
+			w := []interface{}{fmt.Sprintf("u%d.d%d", u, p.d), -n}
+			if nm := r.partyName(rc); nm != "" && nm != "e" && nm != "w" {
+				w = append(w, fmt.Sprintf("%s.c%d", nm, p.ct), n)
+			}
+			if p.d == d && sameDeltas(got, want(w...)) {
 				return
 			}
 		}
 		r.out.Violate(fmt.Sprintf("convert_exact: MsgConvertCoin of %d in denomination class %s moved %s, not (sender -n of a registered pair's coin, receiver +n of its ERC-20)", n, denomClass(d), showDeltas(got)))
 	}})
+}
+
+// partyClass names the class of a receiver for the statistics and the violation texts
+func (r *run) partyClass(p int) string {
+	switch {
+	case p < 3:
+		return "user"
+	case p == pContract:
+		return "WFX contract"
+	case p >= pContract:
+		return "token contract"
+	}
+	return map[int]string{pErc20Mod: "erc20 module account", pEthMod: "crosschain module account", pFeeColl: "fee collector", pGov: "gov module account",
+		pPrecomp: "precompile address", pZero: "zero address"}[p]
 }
 
 func denomClass(d int) string {
@@ -867,12 +973,32 @@ func (r *run) cerc(ct, u, rc, n int) {
 	pairs := r.pairList()
 	t := r.contract[ct]
 	off := r.disabledFor(t.Hex())
+	recv := sdk.AccAddress(r.party(rc))
+	blocked := r.w.S.App.BankKeeper.BlockedAddr(recv)
+	pair, found := r.w.S.App.Erc20Keeper.GetTokenPair(r.ctx(), t.Hex())
+	recvBal := func() *big.Int {
+		if found {
+			return r.w.S.App.BankKeeper.GetBalance(r.ctx(), recv, pair.Denom).Amount.BigInt()
+		}
+		return big.NewInt(0)
+	}
+	before := recvBal()
+	// the coins of an ERC-20 -> coin conversion may be sent to the pair's own escrow account (only the WFX contract can be
+	// named: the erc20 module account is blocked): a donation, escrow − supply grows by n
+	shift := map[string]*big.Int{}
+	if found && pair.IsNativeCoin() && pair.Denom == fxtypes.DefaultDenom && rc == pContract && !r.dead[ct] {
+		shift["mod:"+pair.Denom] = big.NewInt(int64(n))
+	}
+	r.out.Count("cerc:receiver:" + r.partyClass(rc))
 	r.op(fmt.Sprintf("cerc %d %d %d %d", ct, u, rc, n), func() error {
-		return r.msg(&erc20types.MsgConvertERC20{ContractAddress: t.Hex(), Amount: si(n), Receiver: r.users[rc].AccAddress().String(), Sender: r.users[u].Address().Hex()})
-	}, opts{check: func(res string, pre, post map[string]*big.Int, preIdx, postIdx string) {
+		return r.msg(&erc20types.MsgConvertERC20{ContractAddress: t.Hex(), Amount: si(n), Receiver: recv.String(), Sender: r.users[u].Address().Hex()})
+	}, opts{aliasShift: shift, check: func(res string, pre, post map[string]*big.Int, preIdx, postIdx string) {
 		got := userDeltas(pre, post)
 		if res == "ok" && off {
 			r.out.Violate("toggle: MsgConvertERC20 succeeded although conversion is switched off (module parameter or pair flag)")
+		}
+		if res == "ok" && blocked {
+			r.out.Violate(fmt.Sprintf("blocked receiver: MsgConvertERC20 to a blocked address (%s) was accepted", r.partyClass(rc)))
 		}
 		if res != "ok" || preIdx != postIdx {
 			if len(got) != 0 || (res != "ok" && preIdx != postIdx) {
@@ -880,13 +1006,32 @@ func (r *run) cerc(ct, u, rc, n int) {
 			}
 			return
 		}
+		if gain := new(big.Int).Sub(recvBal(), before); gain.Cmp(big.NewInt(int64(n))) != 0 && !(rc == pContract && pair.Denom == fxtypes.DefaultDenom) {
+			r.out.Violate(fmt.Sprintf("convert_exact: MsgConvertERC20 of %d to receiver class %s: the sender lost the tokens but the receiver's coin balance grew by %s", n, r.partyClass(rc), gain))
+		}
 		for _, p := range pairs {
-			if p.ct == ct && sameDeltas(got, want(fmt.Sprintf("u%d.c%d", u, p.ct), -n, fmt.Sprintf("u%d.d%d", rc, p.d), n)) {
+			w := []interface{}{fmt.Sprintf("u%d.c%d", u, p.ct), -n}
+			if nm := r.partyName(rc); nm != "" && nm != "e" && nm != "w" && !(p.d == 0 && rc >= 3) {
+				w = append(w, fmt.Sprintf("%s.d%d", nm, p.d), n)
+			}
+			if p.ct == ct && sameDeltas(got, want(w...)) {
 				return
 			}
 		}
 		r.out.Violate(fmt.Sprintf("convert_exact: MsgConvertERC20 of %d moved %s, not (sender -n of the ERC-20, receiver +n of the pair's coin)", n, showDeltas(got)))
 	}})
+}
+
+// xfer: a direct token.transfer(party, n) by a user — not a message of the erc20 module (environment)
+func (r *run) xfer(ct, u, p, n int) {
+	to := common.BytesToAddress(r.party(p))
+	r.out.Count("xfer:to:" + r.partyClass(p))
+	r.op(fmt.Sprintf("xfer %d %d %d %d", ct, u, p, n), func() error {
+		return r.atomic(func(ctx sdk.Context) error {
+			_, err := r.w.S.App.EvmKeeper.ApplyContract(ctx, r.users[u].Address(), r.contract[ct], nil, contract.GetFIP20().ABI, "transfer", to, big.NewInt(int64(n)))
+			return err
+		})
+	}, opts{env: true})
 }
 
 // cden: MsgConvertDenom of coin denomination d towards target t (-1 = the erc20 module, i.e. the base denomination)
@@ -973,6 +1118,7 @@ func TestC08(t *testing.T) {
 		r.fundc(110, 2, 50)
 		if seq == nSeq {
 			// dedicated last sequence: mixed transactions leave the token's books broken when the defect is present
+			r.feeOnTransfer()
 			r.mixed(nMix)
 			continue
 		}
@@ -981,6 +1127,24 @@ func TestC08(t *testing.T) {
 			r.ccoin(1, 0, 1, 30)
 			r.cerc(ct2, 1, 1, 40)
 			r.cden(2, 1, 1, 10, 0) // externally-owned base -> alias: breaks I_external (witness of the Lean theorem)
+			// receivers that are not users: blocked module accounts (EVM form / bech32 form), the gov module account, a
+			// precompile address, the zero address, the token contract itself, the WFX contract
+			r.ccoin(2, 1, pErc20Mod, 4) // externally-owned pair, receiver = the module that escrows the tokens
+			r.ccoin(1, 0, pErc20Mod, 2)
+			r.ccoin(1, 0, pEthMod, 2)
+			r.ccoin(1, 0, pFeeColl, 2)
+			r.ccoin(1, 0, pGov, 2)
+			r.ccoin(1, 0, pPrecomp, 2)
+			r.ccoin(1, 0, pZero, 2)
+			r.ccoin(1, 0, pContract+ct1, 2)
+			r.ccoin(1, 0, pContract, 2)
+			r.cerc(ct2, 1, pErc20Mod, 3)
+			r.cerc(ct2, 1, pEthMod, 3)
+			r.cerc(ct2, 1, pGov, 3)
+			r.cerc(ct2, 1, pZero, 3)
+			r.ccoin(0, 0, 0, 20)
+			r.cerc(0, 0, pContract, 5) // WFX -> FX with the WFX contract as receiver: the FX comes straight back (donation)
+			r.xfer(ct2, 1, pErc20Mod, 5) // a direct transfer to the module account: escrow > coin supply
 			r.ccoin(110, 2, 2, 5)  // a bridge denomination is not a registered coin
 			r.upalias(2, 110)      // an alias owned by another denomination
 			r.upalias(2, 112)      // a foreign bridge denomination nobody owns: becomes an alias of denomination 2
@@ -1126,6 +1290,32 @@ func (r *run) randomOp() {
 			}
 		}
 	}
+	// receivers of the coin <-> ERC-20 conversions: mostly users, three times out of ten a module account / blocked
+	// address, the gov module account, a precompile address, the zero address or a contract account
+	special := func() int {
+		cts := r.ctIDs()
+		switch c := rng.Intn(10); {
+		case c < 2:
+			return pErc20Mod
+		case c < 3:
+			return pEthMod
+		case c < 4:
+			return pFeeColl
+		case c < 5:
+			return pGov
+		case c < 6:
+			return pPrecomp
+		case c < 7:
+			return pZero
+		case c < 8:
+			return pContract // the WFX contract
+		}
+		return pContract + cts[rng.Intn(len(cts))]
+	}
+	rcv := rc
+	if rng.Intn(10) < 3 {
+		rcv = special()
+	}
 	// a sender that holds the asset, three times out of four
 	holder := func(bal func(u int) *big.Int) int {
 		if rng.Intn(4) != 0 {
@@ -1157,7 +1347,7 @@ func (r *run) randomOp() {
 		}
 		r.out.Count("ccoin:denom:" + cls)
 		u = holder(func(i int) *big.Int { return r.coinBal(r.users[i].AccAddress(), d) })
-		r.ccoin(d, u, rc, r.amount(r.coinBal(r.users[u].AccAddress(), d), "ccoin"))
+		r.ccoin(d, u, rcv, r.amount(r.coinBal(r.users[u].AccAddress(), d), "ccoin"))
 	case k < 40: // MsgConvertERC20
 		var ct int
 		switch c := rng.Intn(20); {
@@ -1172,7 +1362,7 @@ func (r *run) randomOp() {
 			r.out.Count("cerc:contract:unknown")
 		}
 		u = holder(func(i int) *big.Int { return r.balOf(r.contract[ct], r.users[i].Address()) })
-		r.cerc(ct, u, rc, r.amount(r.balOf(r.contract[ct], r.users[u].Address()), "cerc"))
+		r.cerc(ct, u, rcv, r.amount(r.balOf(r.contract[ct], r.users[u].Address()), "cerc"))
 	case k < 56: // MsgConvertDenom
 		var d int
 		// denominations of registered tokens that somebody holds
@@ -1314,7 +1504,7 @@ func (r *run) randomOp() {
 			d = 1
 		}
 		r.fundc(d, u, 1+rng.Intn(50))
-	case k < 95: // external tokens are minted by their owner
+	case k < 94: // external tokens are minted by their owner
 		var ext []int
 		for _, ct := range r.extOf {
 			if !r.dead[ct] {
@@ -1325,6 +1515,18 @@ func (r *run) randomOp() {
 		if len(ext) > 0 {
 			r.funde(ext[rng.Intn(len(ext))], u, 1+rng.Intn(50))
 		}
+	case k < 96:
+		// a holder moves tokens directly (token.transfer), in particular to the module account that escrows them
+		ct := r.ctOfDenom(pick(rng, st.regd, 1))
+		if r.dead[ct] {
+			return
+		}
+		u = holder(func(i int) *big.Int { return r.balOf(r.contract[ct], r.users[i].Address()) })
+		to := special()
+		if rng.Intn(2) == 0 {
+			to = pErc20Mod
+		}
+		r.xfer(ct, u, to, r.amount(r.balOf(r.contract[ct], r.users[u].Address()), "xfer"))
 	case k < 98:
 		on := r.w.S.App.Erc20Keeper.GetEnableErc20(r.ctx())
 		if on {
